@@ -146,6 +146,7 @@ def run_case(case):
     # 'late_lost': the connectionLost that follows the agent's own loseConnection arrives only after the next
     # connection has been made (Twisted promises "a later reactor turn", nothing more)
     r.defer_io = bool(case.get('late_lost'))
+    r.segments = case.get('seg')        # every peer message arrives in that many TCP segments
     sim.boot()
     opens = []
     specs = list(case['history']) + [case['observed']]
@@ -360,7 +361,8 @@ def case_strategy(draw):
     nseg = draw(st.integers(1, 3))
     path = [[draw(st.sampled_from([1, 2])), draw(st.lists(vs.asn4, min_size=1, max_size=4))] for _ in range(nseg)]
     return {'cfg': cfg, 'history': hist, 'observed': obs, 'observed_accept': accept, 'as_path': path, 'agg_as': draw(vs.asn4),
-            'late_lost': draw(st.booleans()), 'garbled_first': draw(st.sampled_from([None, None, None, 0, 1, 2, 3]))}
+            'late_lost': draw(st.booleans()), 'garbled_first': draw(st.sampled_from([None, None, None, 0, 1, 2, 3])),
+            'seg': draw(st.sampled_from([None, None, None, 2, 5]))}
 
 
 def shards(tier):
